@@ -59,7 +59,9 @@ Fifth session (package X1) – every input kind that needs no external tool, eve
   (`HtmlBytes.site`: one job per record in list order, the source bytes `World.raw`), the five badges
   and `coverage.json` (`MdBytes.badgeBytes`, `coverageJsonBytes` on `global.stats`); the date is a
   parameter (`Opts.htmlDate`, `none` = `--no-date`), limits are the defaults (no
-  `--output-config-file`). The bundled style sheet (`--html-resources bundled`) is a constant of the
+  `--output-config-file`). With a single `-t html -o <dir>` the directory is `<dir>` itself when it does
+  not exist yet and `<dir>/html` when `<dir>` exists (`to_file_name`, main.rs 58-78): `runHtml` lists the
+  files relative to that directory. The bundled style sheet (`--html-resources bundled`) is a constant of the
   crate: named (`bundledNames`), not modelled. Several `-t` with `-o <existing directory>`
   (main.rs 519-547): `runMulti` = per type, in command-line order, the file `to_file_name` names
   (`MainGlue.fixedName`) or the html directory `html`; `rewrite_paths` runs once, each type is sorted
